@@ -355,13 +355,31 @@ pub fn run(ctx: &Ctx) -> i32 {
             }
         }
     }
+    // the accessor the indicators read the monthly table through (it takes the table's lock itself)
+    {
+        let table: Vec<(String, String, f32)> = MONTHLYRADDATA.lock().unwrap().iter().map(|r| (format!("{}", r.zone), serde_json::to_value(r.orientation).unwrap().as_str().unwrap().to_string(), r.dir[6] + r.dif[6])).collect();
+        for zn in ALL_ZONES {
+            let got = climatedata::total_radiation_in_july_by_orientation(&zone(zn));
+            for c in classes {
+                n_eval += 1;
+                let exp: Vec<f32> = table.iter().filter(|(z, o, _)| z == zn && o == c).map(|x| x.2).collect();
+                let g: Vec<f32> = got.iter().filter(|(o, _)| serde_json::to_value(**o).unwrap() == json!(c)).map(|(_, v)| *v).collect();
+                if exp.len() == 1 && g != exp {
+                    ctx.violation("tables:july-total-by-orientation", &format!("zone {} orientation {}: the July total handed to the indicators is {:?}, the table row says {:?}", zn, c, g, exp), json!({"zone": zn, "orientation": c}));
+                }
+            }
+            if got.len() != 9 {
+                ctx.violation("tables:july-total-by-orientation:count", &format!("zone {}: {} orientations handed to the indicators, 9 in the table", zn, got.len()), json!({"zone": zn}));
+            }
+        }
+    }
     ctx.sample(json!({"part": "tables", "zone": "D3", "orientation": "SE", "check": "12 monthly sums of period_radiation_for_surface(zonaD3.met) == table row"}));
     ctx.eval(n_eval);
     ctx.nontriv(above + n_conserv + 365 + 32 * 9);
     ctx.outcome_merge(&outcomes);
     ctx.finish(
         "model_checking",
-        &format!("all 365 (month, day) pairs against a calendar table (nday_from_md and nday_from_ymd); sun altitude/azimuth on the full grid latitude [-66,66] x declination [-23.45,23.45] x hour angle (-180,180) with step {} degrees against the spherical-astronomy sun vector (E,N,U) for altitudes in [1,89] (0.05 degrees; azimuth tolerance scaled by 1/cos(alt)); incidence angle for tilt 0..180 x surface azimuth -180..180 (15 degree grid) x 6 latitudes x 5 declinations x 47 hour angles (solar::angle_sol_surf and climate::sunsurface_angles) against the angle between that sun vector and WallGeom::normal (also tied to ray_dir_to_sun; the normal also for a rectangle at five offsets in its plane x four starting corners); all 8760 hours of zonaD3.met: horizontal conservation (altitude >= 6), downward = albedo x global, beam >= 0 on the 9 standard orientations; the same three identities on the free-input grid latitude{{0,28,40.7,43.4,-35}} x day{{15,80,172,266,355}} x every half hour (model altitude >= 6; below that: gain of a downward surface between albedo 0 and 0.5 = half the diffuse input, dif{{0,5,40}}) x dir{{0,20,150,250,500,900}} x dif{{0,40,150,400}} x albedo{{.2,0,.5}}; 32 zones x 9 classes x 12 months and July-day rows exist, non-negative; zone names round-trip; D3 July rows == weather file rows; D3 monthly rows == monthly sums of the radiation model on the shipped file; row label == class of the azimuth it was computed for", step),
+        &format!("all 365 (month, day) pairs against a calendar table (nday_from_md and nday_from_ymd); sun altitude/azimuth on the full grid latitude [-66,66] x declination [-23.45,23.45] x hour angle (-180,180) with step {} degrees against the spherical-astronomy sun vector (E,N,U) for altitudes in [1,89] (0.05 degrees; azimuth tolerance scaled by 1/cos(alt)); incidence angle for tilt 0..180 x surface azimuth -180..180 (15 degree grid) x 6 latitudes x 5 declinations x 47 hour angles (solar::angle_sol_surf and climate::sunsurface_angles) against the angle between that sun vector and WallGeom::normal (also tied to ray_dir_to_sun; the normal also for a rectangle at five offsets in its plane x four starting corners); all 8760 hours of zonaD3.met: horizontal conservation (altitude >= 6), downward = albedo x global, beam >= 0 on the 9 standard orientations; the same three identities on the free-input grid latitude{{0,28,40.7,43.4,-35}} x day{{15,80,172,266,355}} x every half hour (model altitude >= 6; below that: gain of a downward surface between albedo 0 and 0.5 = half the diffuse input, dif{{0,5,40}}) x dir{{0,20,150,250,500,900}} x dif{{0,40,150,400}} x albedo{{.2,0,.5}}; 32 zones x 9 classes x 12 months and July-day rows exist, non-negative; zone names round-trip; D3 July rows == weather file rows; D3 monthly rows == monthly sums of the radiation model on the shipped file; row label == class of the azimuth it was computed for; total_radiation_in_july_by_orientation(zone) == the July column of the table for all 32 x 9", step),
         true,
         json!({}),
     )
